@@ -465,16 +465,31 @@ func checkMtaRoles(c *Ctx, r *Run) {
 		r.Check("MTA-1", pname+"|negation-after-proof", c.Pos(neg.Pos()), instrDominates(proof, neg), "the in-place negation happens after the proof consumed the witness -beta", "BetaNeg is negated in place before NewProof reads it: the proof is made for +beta and fails, or D and the witness disagree")
 		// statement fields
 		want := map[string]func(v ssa.Value) bool{
-			"Kv":       func(v ssa.Value) bool { return resolveLoad(v) == ssa.Value(pf.Params[idx["receiverEncryptedShare"]]) },
-			"Dv":       func(v ssa.Value) bool { ex, ok := resolveLoad(v).(*ssa.Extract); return ok && ex.Tuple == ssa.Value(mta) && ex.Index == 0 },
-			"Fp":       func(v ssa.Value) bool { ex, ok := resolveLoad(v).(*ssa.Extract); return ok && ex.Tuple == ssa.Value(mta) && ex.Index == 1 },
+			"Kv": func(v ssa.Value) bool { return resolveLoad(v) == ssa.Value(pf.Params[idx["receiverEncryptedShare"]]) },
+			"Dv": func(v ssa.Value) bool {
+				ex, ok := resolveLoad(v).(*ssa.Extract)
+				return ok && ex.Tuple == ssa.Value(mta) && ex.Index == 0
+			},
+			"Fp": func(v ssa.Value) bool {
+				ex, ok := resolveLoad(v).(*ssa.Extract)
+				return ok && ex.Tuple == ssa.Value(mta) && ex.Index == 1
+			},
 			"Verifier": func(v ssa.Value) bool { return resolveLoad(v) == ssa.Value(pf.Params[idx["receiver"]]) },
 			"Prover": func(v ssa.Value) bool {
 				return dependsOn(v, func(x ssa.Value) bool { return x == ssa.Value(pf.Params[idx["sender"]]) })
 			},
-			"Y": func(v ssa.Value) bool { ex, ok := resolveLoad(v).(*ssa.Extract); return ok && ex.Tuple == ssa.Value(mta) && ex.Index == 4 },
-			"S": func(v ssa.Value) bool { ex, ok := resolveLoad(v).(*ssa.Extract); return ok && ex.Tuple == ssa.Value(mta) && ex.Index == 2 },
-			"R": func(v ssa.Value) bool { ex, ok := resolveLoad(v).(*ssa.Extract); return ok && ex.Tuple == ssa.Value(mta) && ex.Index == 3 },
+			"Y": func(v ssa.Value) bool {
+				ex, ok := resolveLoad(v).(*ssa.Extract)
+				return ok && ex.Tuple == ssa.Value(mta) && ex.Index == 4
+			},
+			"S": func(v ssa.Value) bool {
+				ex, ok := resolveLoad(v).(*ssa.Extract)
+				return ok && ex.Tuple == ssa.Value(mta) && ex.Index == 2
+			},
+			"R": func(v ssa.Value) bool {
+				ex, ok := resolveLoad(v).(*ssa.Extract)
+				return ok && ex.Tuple == ssa.Value(mta) && ex.Index == 3
+			},
 			"X": func(v ssa.Value) bool { return resolveLoad(v) == ssa.Value(pf.Params[idx["senderSecretShare"]]) },
 		}
 		got := map[string]bool{}
